@@ -53,6 +53,15 @@ def make_project(rng, k, with_include=True):
             if lines[i].strip() and rng.chance(1, 4):
                 lines[i] = "/* naïve – ünïcödé µ */ " + lines[i]
         main = "\n".join(lines)
+    if rng.chance(1, 4):
+        # a template that instantiates itself and has a finding from CFG generation (a shadowing declaration): the passes look the
+        # template up while its own CFG is taken out of the cache, so it is generated a second time and the findings of that second
+        # generation must not be handed to the writer again (seeded change C03/m8)
+        rec = ("template Rec%d(n) { signal input a; signal output b; var x = n; if (n > 0) { var x = 1; component r = Rec%d(n - x); r.a <== a; b <== r.b; } "
+               "else { b <== a + x; } }\n" % (k, k))
+        lines = main.split("\n")
+        at = max(i for i, l in enumerate(lines) if "component main" in l) if any("component main" in l for l in lines) else len(lines)
+        main = "\n".join(lines[:at] + [rec.rstrip("\n")] + lines[at:])
     curve = "BN254"
     if rng.chance(1, 2):
         # a main component (since 1121aa8 its instantiation is analysed: one more batch after the definitions), sometimes one the
